@@ -3,7 +3,12 @@ spec/SlicerBounds.tla: the accesses of one bit slicer call (scan steps, run-in c
   data bits at n + ((phase_shift + k*step) >> 8) with interpolation neighbour / 16 sample low-pass window); the numbers of
   every configuration are the fields of the REAL configured object (vbi3_bit_slicer_set_params / vbi_bit_slicer_init), dumped
   by harness/drv_rawdec.c, the configuration is chosen in Init (one TLC run decides a list of configurations).
-  Invariants LineBound, InnerBound, WriteBound, ChannelOk, action properties Rightward, ScanRight.
+  Invariants LineBound, InnerBound, WriteBound, ChannelOk, RefusedIdle, action properties Rightward, ScanRight, CfgFixed.
+  Short (cropped / truncated) lines are configurations like any other: samples_per_line / raw_samples from 1 up to and beyond
+  what the service needs, both interfaces; vbi3_bit_slicer_set_params may refuse (ok = 0: action Refused, nothing read or
+  stored) or must configure a search that stays inside, the void vbi_bit_slicer_init cannot refuse.  The search limit is
+  dumped as a SIGNED number and the model applies the unsigned counter of the loops (Steps: a negative limit, or 0 in the
+  low-pass slicer, wraps around), so a missing clamp is a LineBound violation.
 spec/SlicerImage.tla: the loop of vbi3_raw_decoder_decode over the scan lines of an image (row pointer, interlaced layout,
   output array of max_lines records); RowInside, OwnRow, OutBound, OneEach, Result.
 MC:  TLC explores every (configuration, scan step, data bit) of the grid services x rates x line lengths x pixel layouts x
@@ -30,14 +35,23 @@ MANIFEST = dict(
               "replayed on the real slicers and raw decoders with exactly sized buffers in front of PROT_NONE pages and on exactly "
               "sized heap blocks under ASan, trapped accesses compared with the model's prediction",
     text="For each configuration of the grid (16 services of the library's table x sampling rates 3..35.5 MHz x line lengths "
-         "minimal, +1, +100, nominal x all pixel layouts x new slicer with and without sample offset and the legacy slicer; quick: a "
+         "minimal, +1, +100, nominal x all pixel layouts x new slicer with sample offsets 0, 1, 3, 5, 37 and the legacy slicer; quick: a "
          "seeded sample covering every service and slicer kind) TLC explores all run-in positions the search loop can reach and all "
          "framing/payload bits and checks that no sample at or behind samples_per_line is read (LineBound), a line that is not the last "
          "row stays inside the next row (InnerBound), no more than ceil(payload/8) bytes are stored (WriteBound) and that the accesses "
-         "move rightwards. SlicerImage: for all field counts, interlaced or not, all max_lines and all sets of signal lines the row handed "
+         "move rightwards. Short lines (cropped / truncated: 1, 2, 15, 16, 17, 100, 319, 320 samples and need-2 .. need+1, need = the "
+         "smallest line the interface searches, found by asking the real object for every length from 1 on, plus every length at "
+         "which its answer changes) are configured on both interfaces, all pixel formats, sample offsets 0, 5, 300 (3 for the other "
+         "formats), on fresh and on previously configured slicers: vbi3_bit_slicer_set_params either refuses (then a slice call reads "
+         "and stores nothing: RefusedIdle) or its limit obeys LineBound; the void vbi_bit_slicer_init must obey LineBound for every "
+         "length. The search limit is taken as a signed number and counted down like the code's unsigned loop counter, so a negative "
+         "limit (or 0 in the low-pass slicer) is a search that leaves the line. SlicerImage: for all field counts, interlaced or not, all max_lines and all sets of signal lines the row handed "
          "to a slicer is the scan line's own row inside the image and at most min(max_lines, rows) records are stored. The same "
          "configurations are run on the real code with guard pages: reference waveforms shifted sample by sample over the end of the "
-         "search range, noise, saturated and square wave lines; every SlicerImage behaviour on both raw decoder interfaces (records, lines, "
+         "search range, noise, saturated and square wave lines; short lines with all-zero, saturated, noise, the reference waveform of a "
+         "whole scan line cropped at every position (shifted, truncated at either end) and a synthetic truncated transmission, on guard "
+         "pages and again on exactly sized heap blocks under ASan; one-row raw decoders of both interfaces with bytes_per_line from 1 up to "
+         "the duration of the service; every SlicerImage behaviour on both raw decoder interfaces (records, lines, "
          "payloads compared with the spec); recorded sampling positions of the real slicer must be the positions of the spec.",
     note="The model takes the slicer's integer parameters from the real object, so it decides the bound for these parameters, not "
          "the floating point computation that produced them (that is covered by running the grid). Sampling rates between the grid "
@@ -51,13 +65,21 @@ NAMES = {0x2000: "TTX_A", 1: "TTX_B_L10", 3: "TTX_B", 0x4000: "TTX_C_625", 0x800
 NO_TX = {0x80}
 BLANK_IDS = {0x20000000, 0x40000000}
 NOMINAL = {3000000: 176, 13500000: 720, 27000000: 1440, 35468950: 2048}
-FIELDS = ["lp", "skip", "bps", "wide", "scan", "phase_shift", "step", "frc_bits", "payload", "endian", "spl", "soff"]
+FIELDS = ["lp", "skip", "bps", "wide", "scan", "phase_shift", "step", "frc_bits", "payload", "endian", "spl", "soff", "ok"]
+# lines too short for the service (cropped / truncated lines): absolute lengths and lengths around `need`, the smallest line the
+# interface searches at all (new: smallest accepted samples_per_line for this sample offset; legacy: smallest raw_samples with a
+# search limit > 0)
+SHORT_ABS = [1, 2, 15, 16, 17, 100, 319, 320]
+SHORT_REL = [-2, -1, 0, 1]
+SHORT_SOFF = [0, 5, 300]       # sample offsets of the new interface on short lines (300: offset behind the end of most of them)
 ENV = dict(ASAN_OPTIONS="detect_leaks=0:abort_on_error=0:exitcode=99:allocator_may_return_null=1")
 NPROC = 8                      # parallel driver processes
 QUICK_STATES = 1500000         # model states explored by the quick tier
+QUICK_SHORT_RATES = 9          # sampling rates per (service, interface variant) with short lines in the quick tier
+QUICK_SHORT_STATES = 250000    # of which for short line configurations that are searched (need, need + 1)
 TLC_PARTS = 2                  # thorough: parallel TLC runs
 Y8 = 1
-CORRUPT = os.environ.get("VERIF_C05_CORRUPT", "")     # selftest: "points" / "image" falsify one recorded / generated field
+CORRUPT = os.environ.get("VERIF_C05_CORRUPT", "")     # selftest: "points" / "image" / "short" falsify one recorded / generated / dumped field
 
 
 def env():
@@ -117,8 +139,25 @@ def data_bits(rec):
     return rec["frc_bits"] + (rec["payload"] if rec["endian"] >= 2 else 8 * rec["payload"])
 
 
+def steps_of(rec):
+    """search steps the model explores (SlicerBounds!Steps; a wrapped limit is followed until the line is left)"""
+    if not rec["ok"]:
+        return 0
+    if rec["scan"] < 0 or (rec["scan"] == 0 and rec["lp"]):
+        return rec["spl"]
+    return rec["scan"]
+
+
+def wrapped(rec):
+    return bool(rec["ok"]) and (rec["scan"] < 0 or (rec["scan"] == 0 and rec["lp"] == 1))
+
+
 def states_of(rec):
-    return 3 + rec["scan"] * (data_bits(rec) + 1)
+    """model states of a configuration; a wrapped search limit costs next to nothing: TLC stops at the first state behind the
+    line and the survey does not walk through the data bits"""
+    if wrapped(rec):
+        return 3 + rec["spl"]
+    return 3 + steps_of(rec) * (data_bits(rec) + 1)
 
 
 def grid(ctx, table):
@@ -133,6 +172,9 @@ def grid(ctx, table):
             for spl in ("min", "min+1", "min+100", "nom"):
                 for api, soff in (("new", 0), ("new", 5), ("old", 0)):
                     out.append(dict(api=api, fmt=Y8, rate=rate, spl=spl, soff=soff, svc=s["id"]))
+            # other sample offsets of the new interface (1: smallest, 37: odd, larger than the low-pass window)
+            out.append(dict(api="new", fmt=Y8, rate=rate, spl="min", soff=1, svc=s["id"]))
+            out.append(dict(api="new", fmt=Y8, rate=rate, spl="nom", soff=37, svc=s["id"]))
         for fmt in sorted(fm):
             if fmt == Y8:
                 continue
@@ -140,46 +182,81 @@ def grid(ctx, table):
                 for spl in ("min", "nom"):
                     for api in ("new", "old"):
                         out.append(dict(api=api, fmt=fmt, rate=rate, spl=spl, soff=0, svc=s["id"]))
+                out.append(dict(api="new", fmt=fmt, rate=rate, spl="min", soff=3, svc=s["id"]))
+    # short lines, both interfaces (renew = a vbi3_bit_slicer that was configured for a long line before)
+    for s in svcs:
+        for fmt in sorted(fm):
+            for rate in (rates if fmt == Y8 else (13500000, 27000000, 35468950)):
+                # need, need+1 (lines the interfaces search: as expensive in the model as any ordinary line) with the other pixel
+                # formats only at 13.5 MHz
+                rel = SHORT_REL if (fmt == Y8 or rate == 13500000) else [d for d in SHORT_REL if d < 0]
+                lens = ["=%d" % n for n in SHORT_ABS] + ["need%+d" % d for d in rel]
+                for api, soffs in (("new", SHORT_SOFF if fmt == Y8 else (0, 3)), ("renew", (0,)), ("old", (0,))):
+                    for soff in soffs:
+                        for spl in lens:
+                            out.append(dict(api=api, fmt=fmt, rate=rate, spl=spl, soff=soff, svc=s["id"], short=1))
     return out
 
 
 def resolve(ctx, drv, table, reqs):
-    """ask the real slicer: smallest accepted line length per (service, rate, soff), then the fields of every configuration"""
+    """ask the real slicer: smallest line length per (service, rate, soff) at which the interface searches at all (`need`),
+    then the fields of every configuration.  Requests marked `short` are line lengths from 1 up to need + 1: the new interface
+    may refuse them (record with ok = 0), the legacy one cannot."""
     svc = {s["id"]: s for s in table["services"]}
     fm = {f["fmt"]: f for f in table["formats"]}
-    keys = sorted({(r["svc"], r["rate"], r["soff"]) for r in reqs})
-    probes, cmds = [], []
-    for (sid, rate, soff) in keys:
+    keys = sorted({(r["api"] == "old", r["svc"], r["rate"], r["soff"]) for r in reqs})
+    cmds, est = [], {}
+    for k in keys:
+        (old, sid, rate, soff) = k
         s = svc[sid]
-        if s["cri_rate"] > rate or s["bit_rate"] > rate:
-            continue
-        est = int(rate * s["cri_bits"] / s["cri_rate"]) + int(rate * (s["frc_bits"] + s["payload"]) / s["bit_rate"]) + soff
-        for spl in range(max(1, est - 4), est + 5):
-            probes.append(((sid, rate, soff), spl))
-            cmds.append("D new 1 %d %d %d %x" % (rate, spl, soff, sid))
+        est[k] = int(rate * s["cri_bits"] / s["cri_rate"]) + int(rate * (s["frc_bits"] + s["payload"]) / s["bit_rate"]) + soff
+        # every line length from 1 to beyond the duration of the transmission: where does the configured object search at all
+        cmds.append("N %s 1 %d %d %x 1 %d" % ("old" if old else "new", rate, soff, sid, est[k] + 24))
     res = drv_batch(drv, cmds)
-    if len(res["lines"]) != len(cmds):
+    if len(res["lines"]) != len(cmds) or any("runs" not in o for o in res["lines"]):
         raise tlc.ToolFailure("driver answered %d of %d probes: %s" % (len(res["lines"]), len(cmds), res["stderr"][-500:]))
-    minspl = {}
-    for (k, spl), o in zip(probes, res["lines"]):
-        if o.get("ok") and (k not in minspl or spl < minspl[k]):
-            minspl[k] = spl
+    minspl, edges = {}, {}
+    for k, o in zip(keys, res["lines"]):
+        pos = [r[0] for r in o["runs"] if r[2] > 0]
+        if pos:
+            minspl[k] = min(pos)
+        # the lengths at which the interface changes its mind (refused / no search <-> search <-> negative limit) below `need`
+        top = minspl.get(k, est[k])
+        edges[k] = sorted({x for r in o["runs"] if r[2] != 0 for x in (r[0] - 1, r[0], r[1], r[1] + 1) if 1 <= x < top})
+    reqs = list(reqs)
+    for r in list(reqs):
+        if r.get("short") and r["spl"] == "need-1":
+            k = (r["api"] == "old", r["svc"], r["rate"], r["soff"])
+            reqs += [dict(r, spl="=%d" % x) for x in edges[k]]
     cfgs, cmds = [], []
     seen = set()
     for r in reqs:
-        k = (r["svc"], r["rate"], r["soff"])
-        if k not in minspl:
+        k = (r["api"] == "old", r["svc"], r["rate"], r["soff"])
+        short = bool(r.get("short"))
+        if short:
+            # a sampling rate below the service's clock is refused by the new interface whatever the line length; the legacy
+            # interface takes it: the lengths are then placed around the duration of the transmission
+            m = minspl.get(k, est[k])
+        elif k not in minspl:
             continue                      # sampling rate below the service's clock: no valid configuration
-        m = minspl[k]
-        spl = dict(min=m, nom=max(nominal_spl(r["rate"]), m)).get(r["spl"])
-        if spl is None:
-            spl = m + int(r["spl"].split("+")[1])
+        else:
+            m = minspl[k]
+        if r["spl"].startswith("="):
+            spl = int(r["spl"][1:])
+            if spl > m + 1:
+                continue                  # not a short line for this service and rate: the ordinary grid has min+1, min+100, nominal
+        elif r["spl"].startswith("need"):
+            spl = m + int(r["spl"][4:])
+        else:
+            spl = dict(min=m, nom=max(nominal_spl(r["rate"]), m)).get(r["spl"])
+            if spl is None:
+                spl = m + int(r["spl"].split("+")[1])
         bpp = fm[r["fmt"]]["bpp"]
-        if fm[r["fmt"]]["yuv"] and bpp == 2 and (spl & 1):
+        if not short and fm[r["fmt"]]["yuv"] and bpp == 2 and (spl & 1):
             spl += 1                      # the library transmitter writes YUYV pixel pairs
-        if spl > 32767:
+        if spl > 32767 or spl < 1:
             continue
-        c = dict(api=r["api"], fmt=r["fmt"], rate=r["rate"], spl=spl, soff=r["soff"], svc=r["svc"])
+        c = dict(api=r["api"], fmt=r["fmt"], rate=r["rate"], spl=spl, soff=r["soff"], svc=r["svc"], short=short)
         sig = json.dumps(c, sort_keys=True)
         if sig in seen:
             continue
@@ -193,25 +270,31 @@ def resolve(ctx, drv, table, reqs):
         report_san(ctx, res["stderr"])
     out = []
     for c, o in zip(cfgs, res["lines"]):
-        if not o.get("ok"):
-            continue
-        if o["scan"] <= 0 and c["api"] == "new":
+        if "scan" not in o:
+            raise tlc.ToolFailure("driver: D -> %s" % o)
+        if not o.get("ok") and not c["short"]:
             continue
         c["obj"] = o
         f = fm[c["fmt"]]
-        c["rec"] = dict(lp=o["lp"], skip=o["skip"], bps=f["bpp"], wide=1 if (f["bpp"] == 2 and not f["yuv"]) else 0, scan=max(0, o["scan"]),
-                        phase_shift=o["phase_shift"], step=o["step"], frc_bits=o["frc_bits"], payload=o["payload"], endian=o["endian"],
-                        spl=c["spl"], soff=c["soff"])
-        if o["scan"] < 0:
-            # the search loop counts an unsigned number down: a negative limit is a search over (nearly) the whole address space
-            ctx.violate("mc", "negative-search-limit:%s" % NAMES.get(c["svc"], c["svc"]),
-                        "vbi_bit_slicer_init(%d samples, %d Hz, service %x): cri_bytes = %d" % (c["spl"], c["rate"], c["svc"], o["scan"]),
-                        dict(kind="line", cmds=[cmds[cfgs.index(c)]]))
-        if o["api"] == "new" and o["bps"] != f["bpp"]:
-            raise tlc.ToolFailure("bytes_per_sample %s of the slicer differs from the pixel size %s" % (o["bps"], f["bpp"]))
-        c["kind"] = "old" if c["api"] == "old" else ("lowpass" if o["lp"] else "new")
+        wide = 1 if (f["bpp"] == 2 and not f["yuv"]) else 0
+        if o.get("ok"):
+            # scan: the search limit as a SIGNED number; the model applies the unsigned counter of the loops (SlicerBounds!Steps)
+            c["rec"] = dict(lp=o["lp"], skip=o["skip"], bps=f["bpp"], wide=wide, scan=o["scan"],
+                            phase_shift=o["phase_shift"], step=o["step"], frc_bits=o["frc_bits"], payload=o["payload"], endian=o["endian"],
+                            spl=c["spl"], soff=c["soff"], ok=1)
+            if o["api"] == "new" and o["bps"] != f["bpp"]:
+                raise tlc.ToolFailure("bytes_per_sample %s of the slicer differs from the pixel size %s" % (o["bps"], f["bpp"]))
+        else:
+            # refused: the fields of the object are meaningless (stale or zero), the model only has the action Refused
+            c["rec"] = dict(lp=0, skip=c["soff"] * f["bpp"], bps=f["bpp"], wide=wide, scan=0, phase_shift=0, step=0, frc_bits=0, payload=0,
+                            endian=0, spl=c["spl"], soff=c["soff"], ok=0)
+        c["kind"] = "old" if c["api"] == "old" else ("lowpass" if (o.get("ok") and o["lp"]) else "new")
         c["name"] = NAMES.get(c["svc"], "%x" % c["svc"])
         out.append(c)
+    if CORRUPT == "short":
+        # selftest: the dumped search limit of one short legacy configuration is falsified (0 -> -1)
+        c = [c for c in out if c["short"] and c["api"] == "old" and c["rec"]["scan"] == 0 and c["spl"] == 100][0]
+        c["rec"]["scan"] = c["obj"]["scan"] = -1
     return out
 
 
@@ -233,7 +316,7 @@ def sample(ctx, cfgs):
         recs.add(t); total += cost; chosen.append(c)
         return True
     cheap = sorted(order, key=lambda c: states_of(c["rec"]) > 12000)     # stable: prefers the cheaper half, keeps the shuffle
-    for keyf, lim in ((lambda c: ("svc", c["svc"], c["kind"], c["soff"] > 0), 0.62), (lambda c: ("fmt", c["kind"], fmtclass(c)), 0.8)):
+    for keyf, lim in ((lambda c: ("svc", c["svc"], c["kind"], c["soff"] > 0), 0.62), (lambda c: ("fmt", c["kind"], fmtclass(c), c["soff"] > 0), 0.8)):
         for c in cheap:
             k = keyf(c)
             if k in classes:
@@ -249,13 +332,43 @@ def sample(ctx, cfgs):
     return chosen
 
 
+def sample_short(ctx, shorts):
+    """quick tier: for every (service, interface variant) QUICK_SHORT_RATES seeded sampling rates with ALL line lengths (8 bit
+    luma) and for every other pixel format x interface variant one seeded (service, rate) with all line lengths"""
+    rnd = random.Random(ctx.seed * 7919 + 5)
+    groups = {}
+    for c in shorts:
+        groups.setdefault((c["svc"], c["api"], c["soff"], c["fmt"], c["rate"]), []).append(c)
+    pick = {}
+    for g in sorted(groups):
+        (sid, api, soff, fmt, rate) = g
+        pick.setdefault(("svc", sid, api, soff) if fmt == Y8 else ("fmt", fmt, api, soff), []).append(g)
+    chosen = []
+    for cls in sorted(pick):
+        for g in rnd.sample(pick[cls], min(len(pick[cls]), QUICK_SHORT_RATES if cls[0] == "svc" else 1)):
+            chosen += groups[g]
+    # lines the interface searches (need, need + 1 and what a broken limit makes of the shorter ones) cost scan steps x bits
+    # states: all the cheap ones, the others up to a budget
+    cheap = [c for c in chosen if states_of(c["rec"]) <= 300]
+    dear = [c for c in chosen if states_of(c["rec"]) > 300]
+    rnd.shuffle(dear)
+    total, recs = 0, set()
+    for c in dear:
+        t = tuple(c["rec"][k] for k in FIELDS)
+        cost = 0 if t in recs else states_of(c["rec"])
+        if total + cost > QUICK_SHORT_STATES:
+            continue
+        recs.add(t); total += cost; cheap.append(c)
+    return cheap
+
+
 def write_model(ctx, recs, sub):
     d = os.path.join(ctx.scratch, sub)
     os.makedirs(d, exist_ok=True)
     for f in ("SlicerBounds.tla", "MC_SlicerBounds.tla", "MC_SlicerBounds.cfg", "MC_SlicerBounds_survey.cfg"):
         shutil.copy(os.path.join(tlc.SPEC, f), d)
     rows = ",\n  ".join("[id |-> %d, " % r["id"] + ", ".join("%s |-> %d" % (k, r[k]) for k in FIELDS) + "]" for r in recs)
-    open(os.path.join(d, "SlicerCfgs.tla"), "w").write("---- MODULE SlicerCfgs ----\nCfgList == <<\n  %s\n>>\n====\n" % rows)
+    open(os.path.join(d, "SlicerCfgs.tla"), "w").write("---- MODULE SlicerCfgs ----\nEXTENDS Integers\nCfgList == <<\n  %s\n>>\n====\n" % rows)
     return d
 
 
@@ -326,7 +439,7 @@ def points_cmds(c, svc, seed):
 
 def trace_validate(ctx, drv, table, cfgs):
     svc = {s["id"]: s for s in table["services"]}
-    sel = [c for c in cfgs if c["api"] == "new" and c["rec"]["bps"] == 1 and c["svc"] not in NO_TX]
+    sel = [c for c in cfgs if c["api"] == "new" and c["rec"]["bps"] == 1 and c["svc"] not in NO_TX and c["rec"]["ok"] and not c["short"]]
     sel.sort(key=lambda c: not c.get("good"))        # configurations in which the reference waveform decodes first
     # one log line per sampled bit: bound the log (about 0.2 ms per line in TLC)
     budget = 25000 if ctx.tier == "quick" else 250000
@@ -427,6 +540,30 @@ def sweep_cmds(c, svc, seed, quick):
     return cmds
 
 
+def short_cmds(c, svc, seed, quick, letter="L"):
+    """content classes for a line that is too short for the service (or just long enough): all zero, saturated, noise, the
+    reference waveform of a whole scan line cropped to the line (window moved over the whole transmission: shifted and truncated
+    at either end, finely around the position at which the run-in completes at the end of the search), a synthetic transmission
+    truncated by the line end.  letter H: the same on exactly sized heap blocks (ASan)"""
+    rate, spl, o = c["rate"], c["spl"], c["obj"]
+    head = "%s %s %d %d %d %d %x" % (letter, c["api"], c["fmt"], rate, spl, c["soff"], c["svc"])
+    t0 = int(svc["offset"] * 1e-9 * rate)
+    cri_len = int(rate * svc["cri_bits"] / svc["cri_rate"])
+    siglen = cri_len + int(rate * (svc["frc_bits"] + svc["payload"]) / svc["bit_rate"])
+    nshift = 10 if quick else 40
+    cmds = ["%s sat 0 255 255 %d 00" % (head, seed),
+            "%s noise 0 %d 1 %d 00" % (head, 2 if quick else 12, seed)]
+    if c["svc"] not in NO_TX:
+        lo, hi = t0 - spl - 2, t0 + siglen + 2
+        cmds.append("%s cut %d %d %d %d %s" % (head, lo, hi, max(1, (hi - lo) // nshift), seed, payload_of(svc, seed)))
+        if o.get("ok") and o["scan"] > 0:
+            x = t0 + cri_len - (c["soff"] + o["scan"])
+            cmds.append("%s cut %d %d 1 %d %s" % (head, x - 6, x + 6, seed, payload_of(svc, seed)))
+    lo, hi = -siglen, spl
+    cmds.append("%s late %d %d %d %d 00" % (head, lo, hi, max(1, (hi - lo) // nshift), seed))
+    return cmds
+
+
 def judge_line(ctx, c, p, answers, cmds, acc):
     """compare the trapped accesses of one configuration with the model's prediction p (None = within bounds)"""
     rp = dict(kind="line", cmds=cmds, cfg={k: c[k] for k in ("api", "fmt", "rate", "spl", "soff", "svc", "name", "kind")}, obj=c["obj"],
@@ -439,13 +576,13 @@ def judge_line(ctx, c, p, answers, cmds, acc):
             faults.append((cmd.split()[7], o, off, w))
     who = "%s:%s" % (c["kind"], c["name"])
     where = "%s %s fmt %d, %d Hz, %d samples/line, sample offset %d" % (c["api"], c["name"], c["fmt"], c["rate"], c["spl"], c["soff"])
+    ok = refusal_kept(ctx, c, answers, cmds, who, where, rp)
     wr = [f for f in faults if f[3]]
     rd = [f for f in faults if not f[3]]
     c["sigfaults"] = [f[1] for f in rd if f[0] == "sig"]
     for a, cmd in zip(answers, cmds):
         if cmd.split()[7] == "sig" and a.get("have_good"):
             c["good"] = (a["first_good"], a["last_good"])
-    ok = True
     if wr:
         ok = False
         ctx.violate("replay", "overwrite:%s" % who, "%s: the slicer stored %d byte(s) behind a buffer of ceil(payload/8) bytes (%s)" %
@@ -472,9 +609,26 @@ def judge_line(ctx, c, p, answers, cmds, acc):
     return ok, sum(a.get("n", 0) for a in answers), sum(a.get("good", 0) for a in answers)
 
 
+def refusal_kept(ctx, c, answers, cmds, who, where, rp):
+    """the configuration the line was sliced with is the one that was modelled; a refused one (SlicerBounds!Refused,
+    RefusedIdle) delivered nothing and left the buffer alone"""
+    ok = True
+    for a, cmd in zip(answers, cmds):
+        if "cfg_ok" not in a:
+            raise tlc.ToolFailure("driver: %s -> %s" % (cmd, a))
+        if a["cfg_ok"] != c["rec"]["ok"]:
+            raise tlc.ToolFailure("%s: configured twice with different results (%s, %s): %s" % (where, c["rec"]["ok"], a["cfg_ok"], cmd))
+        if not c["rec"]["ok"] and (a.get("dec") or a.get("touched")) and ok:
+            ok = False
+            ctx.violate("replay", "diverge:sliced-after-refusal:%s" % who,
+                        "%s: vbi3_bit_slicer_set_params returned FALSE, yet vbi3_bit_slicer_slice %s (%s -> %s)" % (
+                            where, "returned TRUE %d time(s)" % a["dec"] if a.get("dec") else "changed the output buffer", cmd, a), rp)
+    return ok
+
+
 def run_lines(ctx, drv, table, cfgs, pred, quick):
     svc = {s["id"]: s for s in table["services"]}
-    jobs = [(c, sweep_cmds(c, svc[c["svc"]], ctx.seed, quick)) for c in cfgs]
+    jobs = [(c, short_cmds(c, svc[c["svc"]], ctx.seed, quick) if c["short"] else sweep_cmds(c, svc[c["svc"]], ctx.seed, quick)) for c in cfgs]
     chunks = [jobs[i::NPROC] for i in range(NPROC)]
 
     def work(chunk):
@@ -498,6 +652,9 @@ def run_lines(ctx, drv, table, cfgs, pred, quick):
                 ok, n, g = judge_line(ctx, c, p, ans, cm, acc)
                 nshift += n; ngood += g
                 ctx.count_case(["line", c["api"], c["fmt"], c["rate"], c["spl"], c["soff"], c["svc"]], nontrivial=True)
+                if c["short"]:
+                    ctx.cov["short_line_configurations"] = ctx.cov.get("short_line_configurations", 0) + 1
+                    ctx.cov["short_lines_refused"] = ctx.cov.get("short_lines_refused", 0) + (0 if c["rec"]["ok"] else 1)
                 if ok:
                     ctx.validated()
     ctx.cov["lines_sliced"] = ctx.cov.get("lines_sliced", 0) + nshift
@@ -520,6 +677,42 @@ def report(ctx, acc, mc):
                         "%s: invariant LineBound fails (%d byte(s) behind the line, run-in complete at scan step %s) for the parameters of the "
                         "real slicer object; no shifted reference waveform, noise or square wave line reached that step%s" %
                         (e["where"], e["ex"], e["n"], trace), e["rp"])
+
+
+def run_heap(ctx, drv, table, cfgs, pred, quick):
+    """the short line configurations once more with line and output buffer as exactly sized heap blocks: ASan is the monitor.
+    A report ends the process; the remaining configurations of that process run in a fresh one."""
+    svc = {s["id"]: s for s in table["services"]}
+    jobs = [(c, short_cmds(c, svc[c["svc"]], ctx.seed, quick, "H")) for c in cfgs if c["short"]]
+    chunks = [jobs[i::NPROC] for i in range(NPROC)]
+
+    def work(chunk):
+        if not chunk:
+            return []
+        res = core.run_seq_driver([drv], [cm for _, cm in chunk], env=build.san_env(dict(ASAN_OPTIONS=ENV["ASAN_OPTIONS"])), timeout=900, max_restarts=6)
+        return list(zip(chunk, res))
+    nrep = 0
+    for part in core.pmap(work, chunks, workers=NPROC):
+        for (c, cm), r in part:
+            if r.get("skipped"):
+                continue
+            who = "%s:%s" % (c["kind"], c["name"])
+            where = "%s %s fmt %d, %d Hz, %d samples/line, sample offset %d (heap)" % (c["api"], c["name"], c["fmt"], c["rate"], c["spl"], c["soff"])
+            rp = dict(kind="asan", cmds=cm)
+            ctx.count_case(["heap", c["api"], c["fmt"], c["rate"], c["spl"], c["soff"], c["svc"]], nontrivial=True)
+            ctx.cov["heap_lines_sliced"] = ctx.cov.get("heap_lines_sliced", 0) + sum(a.get("n", 0) for a in r["lines"])
+            n = report_san(ctx, r["stderr"], replay=rp) if r["stderr"] else 0
+            if n:
+                nrep += 1
+                if pred.get(c["mi"]) is None:
+                    ctx.violate("replay", "diverge:unpredicted-read:%s" % who,
+                                "%s: the model keeps all accesses inside the line, ASan reports an access outside the exactly sized blocks" % where, rp)
+                continue
+            if len(r["lines"]) != len(cm):
+                raise tlc.ToolFailure("driver stopped in %s: %s" % (cm[len(r["lines"])] if len(r["lines"]) < len(cm) else cm, r["stderr"][-1500:]))
+            if refusal_kept(ctx, c, r["lines"], cm, who, where, rp):
+                ctx.validated()
+    ctx.cov["heap_reports"] = nrep
 
 
 def asan_confirm(ctx, drv, table, acc):
@@ -551,7 +744,7 @@ def image_jobs(ctx, table, cfgs, quick):
     svc = {s["id"]: s for s in table["services"]}
     jobs = []
     for c in cfgs:
-        if c["api"] != "new" or c["soff"] != 0 or c["svc"] in NO_TX:
+        if c["api"] != "new" or c["soff"] != 0 or c["svc"] in NO_TX or c["short"] or not c["rec"]["ok"]:
             continue
         s = svc[c["svc"]]
         t0 = int(s["offset"] * 1e-9 * c["rate"])
@@ -658,6 +851,72 @@ def run_images(ctx, drv, table, cfgs, pred, acc, quick):
             ctx.count_case(["image", j["api"], j["pos"], j["il"], c["fmt"], c["rate"], c["spl"], c["svc"]], nontrivial=True)
             if ok:
                 ctx.validated()
+
+
+def short_images(ctx, drv, table, quick):
+    """cropped lines at the image level: raw decoders (both interfaces) for one-row images whose bytes_per_line is too short for
+    the service or just long enough.  Either the decoder does not take the service (no slicer, SlicerImage!NoServices) or its
+    slicer is one of the configurations of SlicerBounds: a noise and a saturated image of exactly that size in front of a
+    PROT_NONE page must be decoded without a trapped access."""
+    rnd = random.Random(ctx.seed * 31 + 7)
+    fm = {f["fmt"]: f for f in table["formats"]}
+    others = sorted(f for f in fm if f != Y8)
+    rates = [6750000, 13500000, 14318180, 17734475, 27000000, 35468950]
+    jobs = []
+    for s in table["services"]:
+        if s["id"] in BLANK_IDS:
+            continue
+        for rate in (rnd.sample(rates, 2) if quick else rates):
+            if s["cri_rate"] > rate or s["bit_rate"] > rate:
+                continue
+            est = int(rate * s["cri_bits"] / s["cri_rate"]) + int(rate * (s["frc_bits"] + s["payload"]) / s["bit_rate"])
+            f0, f1 = s["first"]
+            st = (f0, 1, 0, 0) if f0 else (0, 0, f1, 1)
+            for fmt in (Y8, others[rnd.randrange(len(others))]):
+                for api in ("new", "old"):
+                    cmds = []
+                    for spl in sorted(set(SHORT_ABS + list(range(max(1, est - 3), est + 4)))):
+                        if spl > est + 3:
+                            continue
+                        cmds += ["I %s %d %d %d %d %d %d %d %d 0 1" % (api, fmt, rate, spl * fm[fmt]["bpp"], s["std"], st[0], st[1], st[2], st[3]),
+                                 "S add %x 0" % s["id"], "G 0 %d" % ctx.seed, "G 1 255"]
+                    jobs.append(dict(api=api, name=NAMES.get(s["id"], "%x" % s["id"]), cmds=cmds,
+                                     where="%s raw decoder, %s fmt %d %d Hz, one row, lines of 1 .. %d samples" % (api, NAMES.get(s["id"]), fmt, rate, est + 3)))
+    chunks = [jobs[i::NPROC] for i in range(NPROC)]
+
+    def work(chunk):
+        if not chunk:
+            return []
+        return list(zip(chunk, core.run_seq_driver([drv], [j["cmds"] for j in chunk], env=env(), timeout=900)))
+    n_img = n_taken = 0
+    for part in core.pmap(work, chunks, workers=NPROC):
+        for j, r in part:
+            rp = dict(kind="image", cmds=j["cmds"], where=j["where"])
+            if r.get("skipped"):
+                continue
+            if r["stderr"]:
+                report_san(ctx, r["stderr"], replay=rp)
+            if len(r["lines"]) != len(j["cmds"]):
+                note = "raw decoder ended the process on a short line (not a memory access; outside this statement): %s: %s" % (
+                    j["where"], r["stderr"][-300:].replace("\n", " "))
+                if not any(n.startswith("raw decoder ended the process") for n in ctx.notes):
+                    ctx.notes.append(note)
+                continue
+            bad = [(c, a) for c, a in zip(j["cmds"], r["lines"]) if a.get("fault")]
+            n_img += len(j["cmds"]) // 2
+            n_taken += sum(1 for c, a in zip(j["cmds"], r["lines"]) if c.startswith("S") and a.get("set"))
+            ctx.count_case(["short-image", j["where"]], nontrivial=True)
+            if bad:
+                c, a = bad[0]
+                i = j["cmds"].index(c)
+                ctx.violate("replay", "%s:image-%s:short-line" % ("overwrite" if a["write"] else "diverge:unpredicted-read", j["api"]),
+                            "%s: %s %d byte(s) behind the %s (%s after %s); the model keeps every access inside" % (
+                                j["where"], "store" if a["write"] else "read", a["off"] + 1, "output array" if a["write"] else "image", c,
+                                j["cmds"][i - (i % 4)]), dict(rp, cmds=j["cmds"][i - (i % 4):i - (i % 4) + 4]))
+            else:
+                ctx.validated()
+    ctx.cov["short_line_images_decoded"] = n_img
+    ctx.cov["short_line_decoders_with_service"] = n_taken
 
 
 # ---------------------------------------------------------------- SlicerImage: model checking, generated behaviours on the real decoders
@@ -852,7 +1111,9 @@ def run(ctx):
     quick = ctx.tier == "quick"
     ctx.cov["rule"] = ("cases = configurations (interface, service, pixel format, sampling rate, samples per line, sample offset) whose real slicer "
                        "object was modelled by TLC and executed on guard pages (reference waveform at every sampling offset around the end of the "
-                       "search range + noise, constant, square wave and truncated lines), recorded sampling point traces per configuration, raw decoder "
+                       "search range + noise, constant, square wave and truncated lines; lines too short for the service: zero, saturated, noise, "
+                       "cropped reference waveform, truncated synthetic transmission, also on exactly sized heap blocks), recorded sampling point "
+                       "traces per configuration, one-row raw decoders with short lines, raw decoder "
                        "images (signal on the last / first row) and SlicerImage behaviours replayed on both decoder interfaces; "
                        "validated = model verdict and observation agree and nothing was trapped")
     ctx.assumptions += ["the page protection of the kernel and ASan are the monitors for accesses of the real code",
@@ -867,16 +1128,32 @@ def run(ctx):
     if not cfgs:
         raise tlc.ToolFailure("no configuration accepted by the slicer")
     ctx.cov["grid_configurations"] = len(cfgs)
+    shorts = [c for c in cfgs if c["short"]]
+    cfgs = [c for c in cfgs if not c["short"]]
+    ctx.cov["grid_short_line_configurations"] = len(shorts)
     if quick:
         cfgs = sample(ctx, cfgs)
+        shorts = sample_short(ctx, shorts)
+    cfgs = cfgs + shorts
     ctx.cov["modelled_configurations"] = len(cfgs)
     pred, mc = model_check(ctx, cfgs, ctx.tier)
     ctx.sample(dict(configuration={k: cfgs[0][k] for k in ("api", "fmt", "rate", "spl", "soff", "name")}, real_object=cfgs[0]["obj"],
                     model=cfgs[0]["rec"]))
+    smp = {}
+    for what, pick in (("refused_by_set_params", lambda c: c["short"] and not c["rec"]["ok"]),
+                       ("legacy_init_short_line", lambda c: c["short"] and c["api"] == "old" and c["rec"]["scan"] <= 0)):
+        sh = [c for c in cfgs if pick(c)]
+        if sh:
+            c = sh[len(sh) // 2]
+            smp[what] = dict(configuration={k: c[k] for k in ("api", "fmt", "rate", "spl", "soff", "name")}, real_object=c["obj"], model=c["rec"])
+    if smp:
+        ctx.sample(smp)
     acc = run_lines(ctx, drv, table, cfgs, pred, quick)
+    run_heap(ctx, drv, table, cfgs, pred, quick)
     trace_validate(ctx, drv, table, cfgs)
     asan_confirm(ctx, drv, table, acc)
     run_images(ctx, drv, table, cfgs, pred, acc, quick)
+    short_images(ctx, drv, table, quick)
     report(ctx, acc, mc)
     image_model(ctx, drv, table, quick)
     ctx.cov["exhaustive"] = True
@@ -905,11 +1182,12 @@ def replay(ctx, rp):
 
 
 def selftest(ctx):
-    """one recorded field (the sample position of a bit in a sampling point trace) and one generated field (the records of a
-    SlicerImage behaviour) are falsified: the check must reject both"""
+    """one recorded field (the sample position of a bit in a sampling point trace), one generated field (the records of a
+    SlicerImage behaviour) and one dumped field (the search limit of a legacy slicer on a short line: 0 -> -1) are falsified:
+    the check must reject all three"""
     global CORRUPT
     rc = 0
-    for what, key in (("points", "tv:points:"), ("image", "diverge:records:")):
+    for what, key in (("points", "tv:points:"), ("image", "diverge:records:"), ("short", "model:LineBound:old:")):
         CORRUPT = what
         sub = core.Ctx(ctx.pid, "quick", ctx.seed)
         try:
